@@ -35,6 +35,10 @@ theorem rda_exit (bp : CliqueVec α → CliqueVec α) (grad mleF : CliqueVec α 
     r.marginals = none ∨ ∃ w, r.marginals = some w ∧ r.potentials = mleF w := by
   apply Coherent.rda_exit
 
+/-- the hand model of interior gradient ALWAYS stores marginals and returns their refit.  This is the source's behaviour only for
+`L ≠ 0`: `interior_gradient` returns early when `L == 0`, leaving `marginals` UNSET, and the hand model has no such test
+(`C04.InfG.ig_zero_differs` is the witness of the difference).  The statement about the code — "`L == 0`: nothing written, or
+`potentials = mle(marginals)`" — is the one for the GENERATED solver: C08E `gen_solver_exits_every_loss` / `gen_estimate_pair`. -/
 theorem ig_exit (bp : CliqueVec α → CliqueVec α) (grad mleF : CliqueVec α → CliqueVec α)
     (iters : Nat) (theta0 : CliqueVec α) (L total : α) :
     let r := interiorGradient bp grad mleF iters theta0 L total
